@@ -89,6 +89,24 @@ class AMachine(Machine):
     def _cp(self, rng):
         return rng.choice([rng.randint(1, 12), rng.randint(1, 40), rng.randint(1, 150)])
 
+    @staticmethod
+    def _pages_used(cfg):
+        """Which of the data pages (0: D0, 1: D1, 2: RO) the program text touches, in order of
+        first use: the injector aims at memory that in-flight work is going to access."""
+        used = []
+        for line in cfg["program"]:
+            for tok, page in (("[0x500f", 1), ("[0x5000", 0), ("[0x5001", 0), ("[0x5002", 0), ("[0x501", 1), ("[0x502", 2),
+                              ("0x500", 0), ("0x501", 1)):
+                if tok in line:
+                    if tok == "[0x500f" and 0 not in used:
+                        used.append(0)
+                    if page not in used:
+                        used.append(page)
+                    break
+        if any(l.startswith(("PUSH", "POP", "CALL")) for l in cfg["program"]):
+            used.append(3)
+        return used or [0]
+
     def simplify_action(self, a):
         return ()
 
@@ -312,17 +330,21 @@ class C49(AMachine):
     features = ["mem", "straddle", "stack", "call", "loop", "branch", "indirect", "ro"]
     actors = ["fault injector", "tuner"]
     gcc_share = 0.2
-    expected_probes = ["fault_injected_unmap", "fault_injected_perm", "fault_stop", "fault_healed", "runs_completed"]
+    expected_probes = ["fault_injected_unmap", "fault_injected_perm", "fault_stop", "fault_healed", "runs_completed",
+                       "fault_on_straddling_access", "fault_kind_load", "fault_kind_store", "fault_kind_rmw", "fault_kind_stack",
+                       "fault_at_block_start", "fault_inside_block"]
 
     def gen_actions(self, rng, cfg, steer):
         acts = []
+        used = self._pages_used(cfg)
         for _ in range(rng.choice([1, 1, 2, 3, 6])):
-            cp = self._cp(rng)
+            cp = rng.choice([rng.randint(1, 4), rng.randint(1, 10), self._cp(rng)])
             r = rng.random()
+            page = rng.choice(used) if rng.random() < 0.8 else rng.randrange(4)
             if r < 0.5:
-                acts.append([cp, "unmap", rng.randrange(3)])
+                acts.append([cp, "unmap", page])
             elif r < 0.85:
-                acts.append([cp, "perm", rng.randrange(2), rng.randrange(3)])
+                acts.append([cp, "perm", {0: 0, 1: 1, 2: 0, 3: 2}[page], rng.randrange(3)])
             elif r < 0.95:
                 acts.append([cp, "opt", rng.choice([1, 2, 3, 5, 8, 50]), rng.choice([0, 1, 2, 3, 7])])
             else:
@@ -362,9 +384,9 @@ class C20(AMachine):
             cp = self._cp(rng)
             r = rng.random()
             if r < 0.25:
-                acts.append([cp, "unmap", rng.randrange(3)])
+                acts.append([rng.choice([rng.randint(1, 6), cp]), "unmap", rng.choice(self._pages_used(cfg))])
             elif r < 0.4:
-                acts.append([cp, "perm", rng.randrange(2), rng.randrange(3)])
+                acts.append([rng.choice([rng.randint(1, 6), cp]), "perm", rng.choice(self._pages_used(cfg)) % 2, rng.randrange(3)])
             elif r < 0.7:
                 acts.append([cp, "bp_add", rng.randrange(200), rng.randrange(3)])
             elif r < 0.8:
